@@ -234,9 +234,10 @@ def known_findings():
     return fs
 
 
-def tag_of(desc):
-    m = re.match(r'"?(C\d\d):', desc)
-    return m.group(1) if m else None
+def tags_of(desc):
+    """property tags of an assertion message: "C04: ..." or "C03/C13: ..." """
+    m = re.match(r'"?((?:C\d\d/)*C\d\d):', desc)
+    return m.group(1).split("/") if m else []
 
 
 def main():
@@ -344,8 +345,8 @@ def main():
             elif r["status"] == "failed":
                 mine, other, untagged = [], [], []
                 for fc in r["failed_checks"]:
-                    t = tag_of(fc["desc"])
-                    (mine if t == prop else other if t else untagged).append(fc)
+                    t = tags_of(fc["desc"])
+                    (mine if prop in t else other if t else untagged).append(fc)
                 for fc in untagged:
                     # a failed check that carries no property tag (pointer / bounds / overflow check,
                     # panic inside the code under test, unwinding assertion, model capacity): it is a
@@ -393,8 +394,8 @@ def main():
                 m = re.search(r"panicked at [^\n]*\n([^\n]*)", o)
                 msg = m.group(1).strip() if m else "?"
                 rec["failure"] = msg
-                t = tag_of(msg)
-                if t == prop:
+                t = tags_of(msg)
+                if prop in t:
                     hit = [k for k in kf if k["property"] == prop and re.fullmatch(k["harness"], nh) and k["check"] in msg]
                     if hit:
                         known_hits.append({"harness": nh, "check": msg, "finding": hit[0]["what"]})
